@@ -332,14 +332,33 @@ func (c *Ctx) addrFn(structKey, field string) string {
 // Heap is a functional map from heap key to the SMT term of the current array.
 // Keys not present resolve to the base constant of the heap's epoch.
 type Heap struct {
-	base int
-	m    map[string]string
+	base      int
+	ghostBase int // epoch whose base constants ghost maps (G_*) still refer to (0: same as base)
+	m         map[string]string
 }
 
 func (h *Heap) clone() *Heap {
-	n := &Heap{base: h.base, m: make(map[string]string, len(h.m))}
+	n := &Heap{base: h.base, ghostBase: h.ghostBase, m: make(map[string]string, len(h.m))}
 	for k, v := range h.m {
 		n.m[k] = v
+	}
+	return n
+}
+
+// havocAll: a heap about which nothing is known (new epoch), except declared ghost maps (G_*):
+// ghost state is written only through contracts, never by unknown code.
+func (h *Heap) havocAll() *Heap {
+	n := &Heap{base: newEpoch(), m: map[string]string{}}
+	if h != nil {
+		for k, v := range h.m {
+			if strings.HasPrefix(k, "G_") {
+				n.m[k] = v
+			}
+		}
+		n.ghostBase = h.ghostBase
+		if n.ghostBase == 0 {
+			n.ghostBase = h.base
+		}
 	}
 	return n
 }
@@ -367,6 +386,9 @@ func (c *Ctx) regHeap(key, sort string) {
 func (c *Ctx) hget(h *Heap, key string) string {
 	if v, ok := h.m[key]; ok {
 		return v
+	}
+	if h.ghostBase != 0 && strings.HasPrefix(key, "G_") {
+		return c.heapBase(key, h.ghostBase)
 	}
 	return c.heapBase(key, h.base)
 }
